@@ -42,6 +42,34 @@ Theorem C10_add_leaves_other_extensions :
   nth_error (w_exts (share_step w ij)) k = nth_error (w_exts w) k.
 Proof. exact @share_frame. Qed.
 
+(* the same with object IDENTITY (model/ExtDefs.v Section Heap): Extension objects are indices, definition
+   objects live in a heap and carry an `_extension` pointer, dictionaries hold addresses; the Extension
+   objects of a world may carry the SAME name (an extension and its loaded copy, two versions of one
+   extension).  Whatever is added to whichever of them in whatever order — the same definition object to
+   several included — every operation definition HELD by Extension object number i is a live operation
+   whose owner pointer is i itself and whose signature names the extension among its requirements ... *)
+Theorem C10_opdef_reports_owner_object :
+  forall (T V M : Type) (hdrs : list (name * version * list name)) (objs : list (obj T V M)) p,
+  heap_names_owner (hrun (new_heapw hdrs objs) p).
+Proof. exact @heap_names_owner_run. Qed.
+(* ... and adding to one Extension object leaves every other one as it was: same dictionaries, and every
+   definition it holds keeps its fields and its owner pointer *)
+Theorem C10_add_leaves_other_extension_objects :
+  forall (T V M : Type) (hdrs : list (name * version * list name)) (objs : list (obj T V M)) p,
+  let w := hrun (new_heapw hdrs objs) p in
+  forall ij k x, k <> fst ij -> nth_error (hw_exts w) k = Some x ->
+  nth_error (hw_exts (hstep w ij)) k = Some x /\
+  view (hw_heap (hstep w ij)) x = view (hw_heap w) x /\
+  held_owners (hw_heap (hstep w ij)) x = held_owners (hw_heap w) x.
+Proof. exact @heap_frame_run. Qed.
+(* deciding "already owned by another extension" by NAME instead of identity breaks the statement: two
+   Extension objects named alike, one definition added to the first and then to the second *)
+Theorem C10_owner_by_name_refuted :
+  let w := fold_left hstep_by_name [(0, 0); (1, 0)] ex_world in
+  ~ heap_names_owner w /\
+  map (held_owners (hw_heap w)) (hw_exts w) = [[(20%N, Some 1, Some [7%N])]; [(20%N, Some 1, Some [7%N])]].
+Proof. exact by_name_refuted. Qed.
+
 (* any document that loads (e.g. one written by another tool): what is written back is a fixed point of
    load-and-write and names the owner in every operation *)
 Theorem C10_reload_fixed_point :
@@ -76,6 +104,11 @@ Example C10_example :
             option_map (fun o => option_map (fun p => sf_reqs (sp_body p)) (so_signature o))
                        (dget N.eqb (se_ops s) 20%N) = Some (Some [4%N; 5%N; 9%N]).
 Proof. exact roundtrip_example. Qed.
+(* two Extension objects named alike and one operation added to both: each holds its own definition *)
+Example C10_heap_example :
+  map (held_owners (hw_heap (hrun ex_world [(0, 0); (1, 0)]))) (hw_exts (hrun ex_world [(0, 0); (1, 0)]))
+  = [[(20%N, Some 0, Some [7%N])]; [(20%N, Some 1, Some [7%N])]].
+Proof. exact heap_example. Qed.
 Example C10_std_nonempty :
   (Nat.leb 1 (length spec_tree) && forallb (fun f : path * packed => N.ltb 0 (pk_len (snd f))) spec_tree) = true /\
   (existsb (fun h => match h_kind h with HType => true | _ => false end) std_helpers &&
@@ -88,6 +121,9 @@ Print Assumptions C10_opdef_names_owner_built.
 Print Assumptions C10_opdef_names_owner_loaded.
 Print Assumptions C10_opdef_names_owner_shared.
 Print Assumptions C10_add_leaves_other_extensions.
+Print Assumptions C10_opdef_reports_owner_object.
+Print Assumptions C10_add_leaves_other_extension_objects.
+Print Assumptions C10_owner_by_name_refuted.
 Print Assumptions C10_reload_fixed_point.
 Print Assumptions C10_type_params_roundtrip.
 Print Assumptions C10_bundled_eq_spec.
